@@ -1,7 +1,7 @@
 From Coq Require Import List NArith ZArith Bool.
 From SK Require Import lib.LGraph lib.Mono.
 From SK Require model.C06_Model model.C11_Model.
-From SK Require Import model.C03_Model model.C05_Model proof.C05_Proof proof.C05_Glue proof.C05_Pipe proof.C05_Prep proof.C05_Comp proof.C05_Main proof.C05_Order proof.C05_Sub proof.C05_Set proof.C05_Result proof.C05_AllStrat proof.C05_PrepOrder proof.C05_Final.
+From SK Require Import model.C03_Model model.C05_Model proof.C05_Proof proof.C05_Glue proof.C05_Pipe proof.C05_Prep proof.C05_Comp proof.C05_Main proof.C05_Order proof.C05_Sub proof.C05_Set proof.C05_Result proof.C05_AllStrat proof.C05_PrepOrder proof.C05_Final proof.C05_Thms.
 From SK Require Import lib.C06_Spec proof.C06_Comp.
 From SK Require proof.C11_Dedup.
 From Coq Require Import Permutation.
@@ -35,7 +35,7 @@ Theorem C05_vocabulary :
   (forall host p, side_okb_c host p = true ->
      side_okb host p = true /\
      (comp_bound (C06_Model.monos_on (host_c06 host) (pat_c06 (p_pat p))) true (host_c06 host) (pat_c06 (p_pat p)) <= DEFAULT_THRESHOLD)%N).
-Proof. exact vocabulary_c. Qed.
+Proof. exact thm_vocabulary. Qed.
 Print Assumptions C05_vocabulary.
 
 (** 1. Gluing is equivariant: the relabelled rule glued onto the relabelled substrate along the transported match is the
@@ -44,7 +44,7 @@ Theorem C05_glue_equivariant :
   forall (sg pi : N -> N), inj sg -> inj pi ->
   forall (host : hostg) (rc : its) (m : mapping),
     glue (relabel pi host) (relabel sg rc) (mv sg pi m) = option_map (relabel pi) (glue host rc m).
-Proof. exact glue_equivariant. Qed.
+Proof. exact thm_glue_equivariant. Qed.
 Print Assumptions C05_glue_equivariant.
 
 (** 2. Matching is equivariant.  (a) the verified enumerator that stands for VF2 (any labels, induced or not): the match
@@ -64,13 +64,7 @@ Theorem C05_matches_equivariant :
      matches strat (relabel pi host) (relabel sg pat) = map (mv sg pi) (matches strat host pat)) /\
   (forall (sg : N -> N), inj sg ->
    forall rc : its, rule_auts (relabel sg rc) = map (mv sg sg) (rule_auts rc)).
-Proof.
-  split; [|split].
-  - intros A B sg pi Hpi hn pl hl pl' hl' pe he pe' he' nm em induced H1 H2 H3 H4 pn.
-    exact (monos_equiv A B sg pi Hpi hn pl hl pl' hl' pe he pe' he' nm em induced H1 H2 H3 H4 pn).
-  - exact matches_relabel.
-  - exact rule_auts_relabel.
-Qed.
+Proof. exact thm_matches_equivariant. Qed.
 Print Assumptions C05_matches_equivariant.
 
 (** 3. Strategies, dispatch.  The fallback strategy returns the component-aware result whenever that is non-empty: raw
@@ -86,16 +80,14 @@ Theorem C05_strategy_dispatch :
      (length (C06_Model.comps (pat_c06 pat)) <> 0)%nat ->
      (length (C06_Model.comps (host_c06 host)) < length (C06_Model.comps (pat_c06 pat)))%nat ->
      matches 1%N host pat = matches 0%N host pat).
-Proof.
-  split; [exact matches_bt_comp|]. split; [exact kept_bt_comp|]. split; [exact glued_bt_comp | exact matches_comp_all_few].
-Qed.
+Proof. exact thm_strategy_dispatch. Qed.
 Print Assumptions C05_strategy_dispatch.
 
 (** 4. Repetition: the modelled pipeline is a function of its inputs (no hidden state). *)
 Theorem C05_repeat :
   forall inv imp ex s (h h' : hostg) (t t' : its),
     h = h' -> t = t' -> pipeline inv imp ex s h t = pipeline inv imp ex s h' t'.
-Proof. exact pipeline_repeat. Qed.
+Proof. exact thm_repeat. Qed.
 Print Assumptions C05_repeat.
 
 (** 5a. The symmetry pruning is equivariant, returns a sub-list of the raw matches in their order, and loses no class:
@@ -109,7 +101,7 @@ Theorem C05_prune_sound :
      exists k, In k (prune rc raw) /\
        (k = m \/ C11_Model.set_eqb m k = true \/
         exists s, In s (rule_auts rc) /\ C11_Model.set_eqb m (C11_Model.act s k) = true)).
-Proof. split; [exact prune_relabel|]. split; [exact prune_subseq | exact prune_complete]. Qed.
+Proof. exact thm_prune_sound. Qed.
 Print Assumptions C05_prune_sound.
 
 (** 5b. The result list is transported by renumbering.
@@ -134,12 +126,7 @@ Theorem C05_result_list_equivariant :
     kept_of strat (relabel pi host) (relabel_prep sg p) = map (mv sg pi) (kept_of strat host p) /\
     glued_of strat (relabel pi host) (relabel_prep sg p) = map (relabel pi) (glued_of strat host p) /\
     results_of false strat (relabel pi host) (relabel_prep sg p) = option_map (map (relabel pi)) (results_of false strat host p).
-Proof.
-  intros strat sg pi Hs Hp host p Hflag. split; [|split].
-  - apply kept_relabel; assumption.
-  - apply glued_relabel; assumption.
-  - apply results_relabel; assumption.
-Qed.
+Proof. exact thm_result_list_equivariant. Qed.
 Print Assumptions C05_result_list_equivariant.
 
 (** 5c. End to end from the template (implicit-hydrogen mode: SynReactor(..., implicit_temp=True, explicit_h=False), both
@@ -153,11 +140,7 @@ Theorem C05_pipeline_equivariant_implicit :
     prepare inv true (relabel sg tpl) = Some (relabel_prep sg p) /\
     pipeline inv true false strat (relabel pi host) (relabel sg tpl)
     = option_map (map (relabel pi)) (pipeline inv true false strat host tpl).
-Proof.
-  intros strat sg pi Hs Hp inv host tpl p Hprep Hflag. split.
-  - apply prepare_relabel; assumption.
-  - eapply pipeline_relabel_any; eassumption.
-Qed.
+Proof. exact thm_pipeline_equivariant_implicit. Qed.
 Print Assumptions C05_pipeline_equivariant_implicit.
 
 (** 2'. Insertion order.  [same_graph g g'] : the same node ids, labels and adjacency, whatever the insertion order of
@@ -171,7 +154,7 @@ Theorem C05_matches_order_independent :
   (forall (sg pi : N -> N), inj sg -> inj pi ->
    forall (host host' : hostg) (pat : molg), same_graph (relabel pi host) host' ->
      forall m, In m (matches 0%N host pat) -> In (mv sg pi m) (matches 0%N host' (relabel sg pat))).
-Proof. split; [exact matches_all_host_order | exact matches_all_rewriting]. Qed.
+Proof. exact thm_matches_order_independent. Qed.
 Print Assumptions C05_matches_order_independent.
 
 (** 3'. The component-aware strategy returns a subset of the exhaustive strategy: every component-aware match is, as a
@@ -188,7 +171,7 @@ Theorem C05_strategy_subset :
     (C06_Model.lenN (C06_Model.monos_on (host_c06 host) (pat_c06 pat) (node_ids (host_c06 host)) (node_ids (pat_c06 pat)))
        <= DEFAULT_THRESHOLD)%N ->
     forall m, In m (matches 1%N host pat) -> exists m', In m' (matches 0%N host pat) /\ Permutation m m'.
-Proof. exact comp_subset_all. Qed.
+Proof. exact thm_strategy_subset. Qed.
 Print Assumptions C05_strategy_subset.
 
 (** 6. The glue does not look at insertion orders, and matches of one pruning class glue to the same ITS.
@@ -220,7 +203,7 @@ Theorem C05_glue_order_independent :
        | None, None => True
        | _, _ => False
        end).
-Proof. split; [exact glue_obs | exact glue_aut]. Qed.
+Proof. exact thm_glue_order_independent. Qed.
 Print Assumptions C05_glue_order_independent.
 
 (** 7. The result set of the exhaustive strategy is invariant under ARBITRARY rewriting of both inputs: renumbering by
@@ -240,10 +223,7 @@ Theorem C05_result_set_invariant_exhaustive :
     same_graph (relabel sg (p_pat p)) (p_pat p'') ->
     (forall T, In T (glued_of 0%N host p) -> exists T'', In T'' (glued_of 0%N host'' p'') /\ obs_eq (relabel pi T) T'') /\
     (forall T'', In T'' (glued_of 0%N host'' p'') -> exists T, In T (glued_of 0%N host p) /\ obs_eq (relabel pi T) T'').
-Proof.
-  intros sg pi Hs Hp host host'' p p'' S S''.
-  exact (glued_set_rewriting sg pi Hs Hp host host'' p p'' (side_okb_ok _ _ S) (side_okb_ok _ _ S'')).
-Qed.
+Proof. exact thm_result_set_invariant_exhaustive. Qed.
 Print Assumptions C05_result_set_invariant_exhaustive.
 
 (** 8. C05_result_set_invariant — the clause for EVERY strategy (0 exhaustive, 1 component-aware, 2 fallback), at graph
@@ -272,10 +252,7 @@ Theorem C05_result_set_invariant_partial :
     same_graph (relabel sg (p_pat p)) (p_pat p'') ->
     (forall T, In T (glued_of strat host p) -> exists T'', In T'' (glued_of strat host'' p'') /\ obs_eq (relabel pi T) T'') /\
     (forall T'', In T'' (glued_of strat host'' p'') -> exists T, In T (glued_of strat host p) /\ obs_eq (relabel pi T) T'').
-Proof.
-  intros strat Hst sg pi Hs Hp host host'' p p'' S S''.
-  exact (glued_set_rewriting_any strat sg pi Hs Hp host host'' p p'' Hst (side_okb_c_ok _ _ S) (side_okb_c_ok _ _ S'')).
-Qed.
+Proof. exact thm_result_set_invariant_partial. Qed.
 Print Assumptions C05_result_set_invariant_partial.
 
 (** 9. From the template, implicit-hydrogen mode (SynReactor(..., implicit_temp=True, explicit_h=False)), both
@@ -297,11 +274,5 @@ Theorem C05_pipeline_set_invariant_implicit :
       (side_okb_c (relabel pi host) (relabel_prep sg p) = true -> side_okb_c host'' p'' = true ->
        (forall T, In T (glued_of strat host p) -> exists T'', In T'' (glued_of strat host'' p'') /\ obs_eq (relabel pi T) T'') /\
        (forall T'', In T'' (glued_of strat host'' p'') -> exists T, In T (glued_of strat host p) /\ obs_eq (relabel pi T) T'')).
-Proof.
-  intros strat Hst sg pi inv host host'' tpl tpl'' p Hs Hp Hprep Hflag Hw Hw'' Hh Ht.
-  destruct (pipeline_set_invariant strat sg pi inv host host'' tpl tpl'' p Hst Hs Hp Hprep Hflag Hw Hw'' Hh Ht)
-    as (p'' & A & B & C & D & E).
-  exists p''. split; [exact A|]. split; [exact B|]. split; [exact C|]. split; [exact D|].
-  intros S S''. exact (E (side_okb_c_ok _ _ S) (side_okb_c_ok _ _ S'')).
-Qed.
+Proof. exact thm_pipeline_set_invariant_implicit. Qed.
 Print Assumptions C05_pipeline_set_invariant_implicit.
